@@ -213,7 +213,7 @@ func genC02(r *prng) *plan {
 		p.Cfg["quantum"] = int64([]int{0, 5, 20, 50}[r.intn(4)])
 		p.Cfg["align"] = int64([]int{0, 200, 200, 1000}[r.intn(4)])
 		for i := 0; i < 3+r.intn(5); i++ {
-			p.Ops = append(p.Ops, opSpec{K: "pair", N: []int64{int64(1 + (r.intn(3)+1)/2), int64(r.intn(23)), int64(r.intn(2)), int64(r.u64() >> 1)}})
+			p.Ops = append(p.Ops, opSpec{K: "pair", N: []int64{int64(1 + (r.intn(4)+1)/2), int64(r.intn(23)), int64(r.intn(2)), int64(r.u64() >> 1)}})
 		}
 	}
 	return p
@@ -631,6 +631,66 @@ func runC02(seed uint64) {
 			w.probe("dup_key_offers")
 			nOps++
 		case "pair":
+			if op.n(0) == 3 {
+				// the header variant: a header-by-number item whose proof was altered is offered while the
+				// getter decodes the genuine header of the same block again and again (at every instant at
+				// which a held-back validation may begin)
+				var eligible []*hblock
+				for _, b := range blocks {
+					if synthOf(b) == nil && b.genuine && b.hdrVal != nil {
+						eligible = append(eligible, b)
+					}
+				}
+				if len(eligible) == 0 {
+					continue
+				}
+				blk := eligible[int(op.n(1))%len(eligible)]
+				hdr, proof, derr := decHeaderWithProof(blk.hdrVal)
+				if derr != nil || len(proof) < 64 {
+					continue
+				}
+				bad := append([]byte{}, proof...)
+				bad[8+rs.intn(len(bad)-16)] ^= byte(1 << uint(rs.intn(8)))
+				forged := encHeaderWithProof(hdr, bad)
+				key := keyHdrNum(blk.header.Number.Uint64())
+				if bind.judge(key, forged) == "" {
+					continue
+				}
+				w.call("pair-header", 60*time.Second, func() error {
+					_, e := H.offerTo(V.self(), portalwire.History, vv, [][]byte{keyHdrHash(blk.hash)}, [][]byte{blk.hdrVal})
+					return e
+				})
+				w.runFor(3 * time.Second)
+				H.content[hpid] = hAll
+				B.fallback = nil
+				stopGet := false
+				step := time.Duration(p.cfg("align")) * time.Millisecond
+				if step <= 0 {
+					step = 50 * time.Millisecond
+				}
+				tg := w.spawn("pair-get", func() error {
+					for i := 0; i < 400 && !stopGet; i++ {
+						time.Sleep(step - time.Duration(time.Now().UnixNano())%step)
+						if h, e := V.histNet.GetBlockHeader(blk.hash[:]); e == nil {
+							checkGot(blk, h, nil, nil, nil)
+						}
+					}
+					return nil
+				})
+				to := w.spawn("pair-offer", func() error {
+					_, e := B.offerTo(V.self(), portalwire.History, vv, [][]byte{key}, [][]byte{forged})
+					return e
+				})
+				w.runUntil(func() bool { return to.done }, 120*time.Second)
+				w.runFor(6 * time.Second)
+				stopGet = true
+				w.runUntil(func() bool { return tg.done }, 30*time.Second)
+				w.op("pair#%d header-by-number of %s with an altered proof is offered while the getter decodes the genuine header", opi, blk.name)
+				w.abstract("pair hdr")
+				w.probe("pair_validations")
+				nOps++
+				continue
+			}
 			getter := op.n(0) // 1 body, 2 receipts
 			item := []int64{0, 2, 3}[getter]
 			// a genuine block whose item travels over a stream
